@@ -343,9 +343,23 @@ var vhShrinkOps = [][]string{
 	{"RENAME", "b", "a1"},
 	{"SETCHAN", "ch2", "WITHIN", "a", "FENCE", "BOUNDS", "0", "0", "2", "2"},
 	{"DELCHAN", "ch"},
+	{"SET", "a", "new", "FIELD", "f", "1", "EX", "900", "POINT", "8", "8"},
+	{"JSET", "b", "aa2", "n", "5"},
+	{"SETHOOK", "hk", "http://h/", "META", "m", "1", "EX", "900", "WITHIN", "a", "FENCE", "BOUNDS", "0", "0", "3", "3"},
 }
 
-//verif:cfg use=dirmodel b_dataset=2_collections(3+3_objects)+1_channel b_interference=1_write(12_kinds)_before_any_lock_acquisition_of_the_rewrite ignorego=1 maxsteps=40000000
+// a second acknowledged write right behind the first one (consecutive entries of the rewrite's side log)
+var vhShrinkOps2 = [][]string{
+	{"SET", "a", "new", "POINT", "9", "9"},   // keeps the fields an earlier SET gave the object
+	{"SET", "a", "new", "XX", "STRING", "x"}, // applies only if the object exists
+	{"SET", "a", "id00", "NX", "POINT", "9", "9"},
+	{"FSET", "a", "new", "g", "1"},
+	{"DEL", "a", "new"},
+	{"PERSIST", "a", "new"},
+	{"SET", "zcol", "x", "FIELD", "f", "1", "STRING", "later"},
+}
+
+//verif:cfg use=dirmodel b_dataset=2_collections(3+3_objects)+1_channel b_interference=1_write(15_kinds)_optionally_followed_by_a_second(7_kinds)_before_any_lock_acquisition_of_the_rewrite ignorego=1 maxsteps=40000000
 func VH_C09_interference() {
 	s, lk := vhShrinkServer()
 	for i := 0; i < 3; i++ {
@@ -357,6 +371,10 @@ func VH_C09_interference() {
 	vhWriteCmd(s, "SETCHAN", "ch", "WITHIN", "a", "FENCE", "BOUNDS", "0", "0", "1", "1")
 	at := vchoose(9)
 	op := vhShrinkOps[vchoose(len(vhShrinkOps))]
+	var op2 []string
+	if k := vchoose(len(vhShrinkOps2) + 1); k > 0 {
+		op2 = vhShrinkOps2[k-1]
+	}
 	count, busy, fired := 0, false, false
 	lk.onLock = func() {
 		if busy {
@@ -365,6 +383,9 @@ func VH_C09_interference() {
 		if count == at {
 			busy, fired = true, true
 			vhWriteCmd(s, op...)
+			if op2 != nil {
+				vhWriteCmd(s, op2...)
+			}
 			busy = false
 		}
 		count++
@@ -373,7 +394,7 @@ func VH_C09_interference() {
 	lk.onLock = nil
 	live := vhSnapshot(s)
 	rec, err := vhRestartOn(s.opts.AppendFileName)
-	vobs("interference", at, strings.Join(op, " "), fired, count)
+	vobs("interference", at, strings.Join(op, " "), strings.Join(op2, " "), fired, count)
 	vassert("C09.K2.restart_loads", err == nil)
 	if fired {
 		vreach("interfered")
